@@ -16,8 +16,8 @@ import os
 WATCH = (os.path.join(runner.REPO, 'clastic') + os.sep, '<sinter')
 
 
-def make_route(e):
-    return Route(e['pattern'], R.make_endpoint(e['tag'], e['out']), methods=e['methods'])
+def make_route(e, shared=None):
+    return Route(e['pattern'], R.make_endpoint(e['tag'], e['out'], shared), methods=e['methods'])
 
 
 class C06(Check):
@@ -48,7 +48,8 @@ class C06(Check):
 
     def gen_entry(self, rng, mode, k):
         pats = R.STRICT_OK if mode == 'strict' else sorted(R.CAT)
-        return {'pattern': rng.choice(pats), 'methods': rng.choice(R.METHOD_SETS), 'out': rng.choice(R.OUTCOMES), 'tag': 'r%d' % k}
+        return {'pattern': rng.choice(pats), 'methods': rng.choice(R.METHOD_SETS),
+                'out': rng.choice(R.OUTCOMES + ['nbS403', 'nbS403', 'nbS404']), 'tag': 'r%d' % k}
 
     def generate(self, seed, tier):
         S = Streams(seed)
@@ -105,8 +106,9 @@ class C06(Check):
         mode = cfg['mode']
         K = 'C06/'
         table = [dict(e, mode=mode, prefix='') for e in cfg['ctor']]
+        shared = R.make_shared_errors()      # pre-built error objects that several routes of this table return
         try:
-            app = Application([make_route(e) for e in cfg['ctor']], slash_mode=mode)
+            app = Application([make_route(e, shared) for e in cfg['ctor']], slash_mode=mode)
         except Exception as e:
             res.violate(K + 'setup-failed:%s' % type(e).__name__, '%r %s' % (e, canon(cfg)))
             return res
@@ -144,7 +146,7 @@ class C06(Check):
                 idx = op['index']
                 before = [r.pattern for r in app.routes]
                 try:
-                    app.add(make_route(op['entry']), index=idx)
+                    app.add(make_route(op['entry'], shared), index=idx)
                 except Exception as ex:
                     res.violate(K + 'add-failed:%s' % type(ex).__name__, 'step %d add(%s, index=%r): %r' % (step, op['entry'], idx, ex), step)
                     break
@@ -199,7 +201,7 @@ class C06(Check):
 
                 def do_add():
                     try:
-                        app.add(make_route(op['entry']), index=idx)
+                        app.add(make_route(op['entry'], shared), index=idx)
                     except Exception as ex:
                         out['add_exc'] = ex
 
